@@ -14,6 +14,16 @@
 // hot-parameter token bucket, hot-parameter pacing and concurrency counters.
 // Both decision traces are recorded step by step; spec/RuleReuse_Trace.tla demands that they agree.
 //
+// The load entry point is chosen PER LOAD (as in RuleReuse.tla, where it is a parameter of each Reload action):
+// "p0" is the entry point of the initial load ("whole" = LoadRules, "res" = LoadRulesOfResource), "path" that of
+// the reload ("whole", "res", or "wholeOther" = LoadRules with a rule for ANOTHER resource added, so that the
+// module's unchanged-detection lets the load through even when the watched resource's list is re-sent as it is).
+// "opt" selects the SPELLING of the optional fields of every rule of the scenario: "set" = written out,
+// "unset" = left at their zero value so that the module's defaulting applies (WarmUpColdFactor 0,
+// StatIntervalInMs 0, StatSlidingWindowBucketCount 0 / ProbeNum 0, ParamsMaxCapacity 0), "part" = some of
+// them, "nil" = hotspot SpecificItems nil.  All loads of a pair use the same spelling: the rules are
+// field-for-field identical for the caller.
+//
 // usage: c14 <scenarios.ndjson> <trace.ndjson>
 package main
 
@@ -49,8 +59,9 @@ type step struct {
 type kind struct {
 	mod   string
 	steps []step
-	stat  map[string]string                 // statistic-parameter class of each token ("none": no statistics)
-	rule  func(tok, res string) interface{} // fresh concrete rule of a token
+	stat  map[string]string                      // statistic-parameter class of each token ("none": no statistics)
+	opts  []string                               // spellings of the optional fields this kind knows; opts[0] if the scenario names none
+	rule  func(tok, res, opt string) interface{} // fresh concrete rule of a token
 }
 
 func req(t int64) step            { return step{t: t, op: "req", batch: 1, arg: "a"} }
@@ -79,38 +90,51 @@ func flowOther(tok, res string, sInterval uint32) *flow.Rule {
 
 var kinds = map[string]*kind{
 	// half-full throttling queue: 2 requests per second, at most 1200 ms of queueing
-	"flow-throttle": {mod: "flow", stat: snone,
+	// (unset: StatIntervalInMs 0 = the default second)
+	"flow-throttle": {mod: "flow", stat: snone, opts: []string{"set", "unset"},
 		steps: []step{req(0), req(0), req(0), req(0), req(100), req(400), req(1600), req(3000)},
-		rule: func(tok, res string) interface{} {
+		rule: func(tok, res, opt string) interface{} {
+			iv := uint32(1000)
+			if opt == "unset" {
+				iv = 0
+			}
 			if tok == "X" {
 				return &flow.Rule{ID: tok, Resource: res, TokenCalculateStrategy: flow.Direct, ControlBehavior: flow.Throttling,
-					Threshold: 2, StatIntervalInMs: 1000, MaxQueueingTimeMs: 1200}
+					Threshold: 2, StatIntervalInMs: iv, MaxQueueingTimeMs: 1200}
 			}
-			return flowOther(tok, res, 1000)
+			return flowOther(tok, res, iv)
 		}},
 	// warm-up tokens: cold rate 33/s, warms up to 99/s within ~3 s of sustained traffic
-	"flow-warmup": {mod: "flow", stat: sx,
+	// (unset: WarmUpColdFactor 0 = the default 3 and StatIntervalInMs 0 = the default second; part: only the cold factor unset)
+	"flow-warmup": {mod: "flow", stat: sx, opts: []string{"set", "unset", "part"},
 		steps: []step{reqB(0, 33), reqB(1000, 33), reqB(2000, 33), reqB(3000, 33), reqB(4000, 80), reqB(4100, 30), reqB(5000, 90), reqB(6000, 99)},
-		rule: func(tok, res string) interface{} {
+		rule: func(tok, res, opt string) interface{} {
+			iv, cf := uint32(1000), uint32(3)
+			switch opt {
+			case "unset":
+				iv, cf = 0, 0
+			case "part":
+				cf = 0
+			}
 			if tok == "X" {
 				return &flow.Rule{ID: tok, Resource: res, TokenCalculateStrategy: flow.WarmUp, ControlBehavior: flow.Reject,
-					Threshold: 99, StatIntervalInMs: 1000, WarmUpPeriodSec: 2, WarmUpColdFactor: 3}
+					Threshold: 99, StatIntervalInMs: iv, WarmUpPeriodSec: 2, WarmUpColdFactor: cf}
 			}
-			return flowOther(tok, res, 1000)
+			return flowOther(tok, res, iv)
 		}},
 	// accumulated count of a standalone statistic window (3000 ms cannot reuse the resource's 10 s array)
-	"flow-standalone": {mod: "flow", stat: sx,
+	"flow-standalone": {mod: "flow", stat: sx, opts: []string{"set"},
 		steps: []step{req(0), req(100), req(200), req(300), req(1000), req(2900), req(3100), req(3200)},
-		rule: func(tok, res string) interface{} {
+		rule: func(tok, res, _ string) interface{} {
 			if tok == "X" {
 				return &flow.Rule{ID: tok, Resource: res, TokenCalculateStrategy: flow.Direct, ControlBehavior: flow.Reject, Threshold: 3, StatIntervalInMs: 3000}
 			}
 			return flowOther(tok, res, 3000)
 		}},
 	// the same rule modified (threshold 3 -> 5), statistic parameters unchanged: the count is kept
-	"flow-standalone-mod": {mod: "flow", stat: sx,
+	"flow-standalone-mod": {mod: "flow", stat: sx, opts: []string{"set"},
 		steps: []step{req(0), req(100), req(200), req(300), req(400), req(500), req(600), req(3100)},
-		rule: func(tok, res string) interface{} {
+		rule: func(tok, res, _ string) interface{} {
 			switch tok {
 			case "X":
 				return &flow.Rule{ID: tok, Resource: res, TokenCalculateStrategy: flow.Direct, ControlBehavior: flow.Reject, Threshold: 3, StatIntervalInMs: 3000}
@@ -120,31 +144,39 @@ var kinds = map[string]*kind{
 			return flowOther(tok, res, 3000)
 		}},
 	// ---- circuit breaker: opens on the 2nd error at t=100, retry deadline t=3100
-	"cb-open": {mod: "circuitbreaker", stat: sx,
+	// (unset: StatSlidingWindowBucketCount 0 and ProbeNum 0 = one bucket, one probe; set: both written out)
+	"cb-open": {mod: "circuitbreaker", stat: sx, opts: []string{"unset", "set"},
 		steps: []step{reqE(0), reqE(100), req(200), req(1000), req(3050), req(3100), reqE(3200), req(3300)},
-		rule:  func(tok, res string) interface{} { return cbRule(tok, res, 2, 2) }},
+		rule:  func(tok, res, opt string) interface{} { return cbRule(tok, res, opt, 2, 2) }},
 	// accumulated error count of a closed breaker; threshold 3 -> 2 with unchanged statistic parameters
-	"cb-mod": {mod: "circuitbreaker", stat: sx,
+	"cb-mod": {mod: "circuitbreaker", stat: sx, opts: []string{"unset", "set"},
 		steps: []step{reqE(0), reqE(100), req(200), req(300), req(3050), req(3150), reqE(3200), req(3300)},
-		rule:  func(tok, res string) interface{} { return cbRule(tok, res, 3, 2) }},
+		rule:  func(tok, res, opt string) interface{} { return cbRule(tok, res, opt, 3, 2) }},
 	// ---- hotspot: token bucket of value "a": 3 tokens per 10 s
-	"hot-bucket": {mod: "hotspot", stat: sx,
+	// (unset: ParamsMaxCapacity 0 = the module's default cache size; set: that size written out; nil: SpecificItems nil)
+	"hot-bucket": {mod: "hotspot", stat: sx, opts: []string{"unset", "set"},
 		steps: []step{req(0), req(100), req(200), req(300), reqA(350, "b"), req(5000), req(10100), req(10200)},
-		rule:  func(tok, res string) interface{} { return hotRule(tok, res, hotspot.Reject, false) }},
-	"hot-bucket-nil": {mod: "hotspot", stat: sx, // the same with SpecificItems left nil in every rule
+		rule:  func(tok, res, opt string) interface{} { return hotRule(tok, res, opt, hotspot.Reject, false) }},
+	"hot-bucket-nil": {mod: "hotspot", stat: sx, opts: []string{"unset", "set"}, // the same with SpecificItems left nil in every rule
 		steps: []step{req(0), req(100), req(200), req(300), reqA(350, "b"), req(5000), req(10100), req(10200)},
-		rule:  func(tok, res string) interface{} { return hotRule(tok, res, hotspot.Reject, true) }},
+		rule:  func(tok, res, opt string) interface{} { return hotRule(tok, res, opt, hotspot.Reject, true) }},
 	// hot-parameter pacing: 2 per second per value, at most 1200 ms of queueing
-	"hot-throttle": {mod: "hotspot", stat: sx,
+	"hot-throttle": {mod: "hotspot", stat: sx, opts: []string{"unset", "set", "nil"},
 		steps: []step{req(0), req(0), req(0), req(0), req(100), req(400), reqA(450, "b"), req(3000)},
-		rule:  func(tok, res string) interface{} { return hotRule(tok, res, hotspot.Throttling, false) }},
+		rule:  func(tok, res, opt string) interface{} { return hotRule(tok, res, opt, hotspot.Throttling, opt == "nil") }},
 	// hot-parameter concurrency: at most 2 in flight per value
-	"hot-conc": {mod: "hotspot", stat: sx,
+	"hot-conc": {mod: "hotspot", stat: sx, opts: []string{"unset", "set", "nil"},
 		steps: []step{{t: 0, op: "hold", batch: 1, arg: "a"}, {t: 10, op: "hold", batch: 1, arg: "a"}, req(20), req(30),
 			{t: 40, op: "release"}, req(50), {t: 60, op: "hold", batch: 1, arg: "a"}, req(70)},
-		rule: func(tok, res string) interface{} {
+		rule: func(tok, res, opt string) interface{} {
 			r := &hotspot.Rule{ID: tok, Resource: res, MetricType: hotspot.Concurrency, ParamIndex: 0, Threshold: 100000,
 				SpecificItems: map[interface{}]int64{}}
+			if opt == "nil" {
+				r.SpecificItems = nil
+			}
+			if opt == "set" {
+				r.ParamsMaxCapacity = hotspot.ConcurrencyMaxCount // what 0 stands for
+			}
 			switch tok {
 			case "X":
 				r.Threshold = 2
@@ -161,8 +193,11 @@ var kinds = map[string]*kind{
 		}},
 }
 
-func cbRule(tok, res string, thrX, thrXm float64) *cb.Rule {
+func cbRule(tok, res, opt string, thrX, thrXm float64) *cb.Rule {
 	r := &cb.Rule{Id: tok, Resource: res, Strategy: cb.ErrorCount, RetryTimeoutMs: 3000, MinRequestAmount: 1, StatIntervalMs: 10000, Threshold: 1000}
+	if opt == "set" {
+		r.StatSlidingWindowBucketCount, r.ProbeNum = 1, 1 // what 0 stands for
+	}
 	switch tok {
 	case "X":
 		r.Threshold = thrX
@@ -178,7 +213,7 @@ func cbRule(tok, res string, thrX, thrXm float64) *cb.Rule {
 	return r
 }
 
-func hotRule(tok, res string, behaviour hotspot.ControlBehavior, nilItems bool) *hotspot.Rule {
+func hotRule(tok, res, opt string, behaviour hotspot.ControlBehavior, nilItems bool) *hotspot.Rule {
 	r := &hotspot.Rule{ID: tok, Resource: res, MetricType: hotspot.QPS, ControlBehavior: behaviour, ParamIndex: 0, Threshold: 100000, DurationInSec: 10}
 	if behaviour == hotspot.Throttling {
 		r.DurationInSec, r.MaxQueueingTimeMs = 1, 1200
@@ -204,48 +239,70 @@ func hotRule(tok, res string, behaviour hotspot.ControlBehavior, nilItems bool) 
 	case "N2":
 		r.DurationInSec = 5
 	}
+	if opt == "set" { // the cache size that 0 stands for
+		r.ParamsMaxCapacity = hotspot.ParamsCapacityBase * r.DurationInSec
+		if r.ParamsMaxCapacity > hotspot.ParamsMaxCapacity {
+			r.ParamsMaxCapacity = hotspot.ParamsMaxCapacity
+		}
+	}
 	return r
 }
 
 // ---------------------------------------------------------------------------------------------------
 
-func load(k *kind, res string, toks []string, perRes bool) {
+// load sends the rules of toks through the entry point of path and returns the module's "really loaded" answer.
+// "wholeOther": the whole-set load also carries a (harmless) rule for another resource, which is new to the module.
+func load(k *kind, res string, toks []string, path, opt string) bool {
 	var err error
+	var ld bool
+	perRes := path == "res"
+	other := res + "_o"
 	switch k.mod {
 	case "flow":
 		l := []*flow.Rule{}
 		for _, t := range toks {
-			l = append(l, k.rule(t, res).(*flow.Rule))
+			l = append(l, k.rule(t, res, opt).(*flow.Rule))
+		}
+		if path == "wholeOther" {
+			l = append(l, &flow.Rule{ID: "o", Resource: other, TokenCalculateStrategy: flow.Direct, ControlBehavior: flow.Reject, Threshold: 100000})
 		}
 		if perRes {
-			_, err = flow.LoadRulesOfResource(res, l)
+			ld, err = flow.LoadRulesOfResource(res, l)
 		} else {
-			_, err = flow.LoadRules(l)
+			ld, err = flow.LoadRules(l)
 		}
 	case "circuitbreaker":
 		l := []*cb.Rule{}
 		for _, t := range toks {
-			l = append(l, k.rule(t, res).(*cb.Rule))
+			l = append(l, k.rule(t, res, opt).(*cb.Rule))
+		}
+		if path == "wholeOther" {
+			l = append(l, &cb.Rule{Id: "o", Resource: other, Strategy: cb.ErrorCount, RetryTimeoutMs: 3000, MinRequestAmount: 1, StatIntervalMs: 10000, Threshold: 1000})
 		}
 		if perRes {
-			_, err = cb.LoadRulesOfResource(res, l)
+			ld, err = cb.LoadRulesOfResource(res, l)
 		} else {
-			_, err = cb.LoadRules(l)
+			ld, err = cb.LoadRules(l)
 		}
 	case "hotspot":
 		l := []*hotspot.Rule{}
 		for _, t := range toks {
-			l = append(l, k.rule(t, res).(*hotspot.Rule))
+			l = append(l, k.rule(t, res, opt).(*hotspot.Rule))
+		}
+		if path == "wholeOther" {
+			l = append(l, &hotspot.Rule{ID: "o", Resource: other, MetricType: hotspot.QPS, ControlBehavior: hotspot.Reject, ParamIndex: 0, Threshold: 100000,
+				DurationInSec: 10, SpecificItems: map[interface{}]int64{}})
 		}
 		if perRes {
-			_, err = hotspot.LoadRulesOfResource(res, l)
+			ld, err = hotspot.LoadRulesOfResource(res, l)
 		} else {
-			_, err = hotspot.LoadRules(l)
+			ld, err = hotspot.LoadRules(l)
 		}
 	}
 	if err != nil {
 		hx.Fatal("load of %v failed: %v", toks, err)
 	}
+	return ld
 }
 
 func clearAll() {
@@ -254,12 +311,14 @@ func clearAll() {
 	_ = hotspot.ClearRules()
 }
 
-// one run: returns the decision of every step
-func run(k *kind, res string, first []string, reloadAt int, reload []string, perRes bool) []hx.M {
+// one run: the initial load goes through entry point p0, the reload (if any) through path; returns the decision
+// of every step and whether the module said that the reload was really executed
+func run(k *kind, res string, first []string, p0 string, reloadAt int, reload []string, path, opt string) ([]hx.M, bool) {
 	clearAll()
 	clk.SetMs(t0)
 	clk.TakeSleeps()
-	load(k, res, first, perRes)
+	load(k, res, first, p0, opt)
+	ld := false
 	var held []*base.SentinelEntry
 	out := make([]hx.M, 0, len(k.steps))
 	for i, s := range k.steps {
@@ -267,7 +326,7 @@ func run(k *kind, res string, first []string, reloadAt int, reload []string, per
 			clk.SetMs(t0 + s.t)
 		}
 		if i == reloadAt {
-			load(k, res, reload, perRes)
+			ld = load(k, res, reload, path, opt)
 		}
 		d := hx.M{"d": "-", "w": 0}
 		switch s.op {
@@ -301,12 +360,12 @@ func run(k *kind, res string, first []string, reloadAt int, reload []string, per
 		out = append(out, d)
 	}
 	if reloadAt == len(k.steps) {
-		load(k, res, reload, perRes)
+		ld = load(k, res, reload, path, opt)
 	}
 	for _, e := range held {
 		e.Exit()
 	}
-	return out
+	return out, ld
 }
 
 func strs(x interface{}) []string {
@@ -344,23 +403,47 @@ func main() {
 		}
 		old, nw := strs(s["old"]), strs(s["new"])
 		pos := int(hx.Int(s, "pos"))
-		perRes := hx.Str(s, "path") == "res"
-		mode := hx.Str(s, "mode")
+		path, mode := hx.Str(s, "path"), hx.Str(s, "mode")
+		if path != "whole" && path != "wholeOther" && path != "res" {
+			hx.Fatal("unknown load path %q", path)
+		}
+		// scenarios written before the entry point became a parameter of each load: one path for the whole history
+		p0 := "whole"
+		if path == "res" {
+			p0 = "res"
+		}
+		if v, ok := s["p0"].(string); ok {
+			p0 = v
+		}
+		if p0 != "whole" && p0 != "res" {
+			hx.Fatal("unknown entry point of the initial load %q", p0)
+		}
+		opt := k.opts[0]
+		if v, ok := s["opt"].(string); ok {
+			opt = v
+		}
+		known := false
+		for _, o := range k.opts {
+			known = known || o == opt
+		}
+		if !known {
+			hx.Fatal("kind %s has no spelling %q of its optional fields", hx.Str(s, "kind"), opt)
+		}
 		if pos < 0 || pos > len(k.steps) {
 			hx.Fatal("bad reload position %d", pos)
 		}
-		a := run(k, fmt.Sprintf("c14_%d_a", tr), old, pos, nw, perRes)
+		a, ld := run(k, fmt.Sprintf("c14_%d_a", tr), old, p0, pos, nw, path, opt)
 		var b []hx.M
 		switch mode {
 		case "erase":
-			b = run(k, fmt.Sprintf("c14_%d_b", tr), old, -1, nil, perRes)
+			b, _ = run(k, fmt.Sprintf("c14_%d_b", tr), old, p0, -1, nil, "", opt)
 		case "fromstart":
-			b = run(k, fmt.Sprintf("c14_%d_b", tr), nw, -1, nil, perRes)
+			b, _ = run(k, fmt.Sprintf("c14_%d_b", tr), nw, p0, -1, nil, "", opt)
 		default:
 			hx.Fatal("unknown mode %q", mode)
 		}
 		out.Emit(hx.M{"op": "new", "tr": tr, "kind": hx.Str(s, "kind"), "mod": k.mod, "mode": mode, "old": old, "new": nw, "pos": pos,
-			"path": hx.Str(s, "path"), "stat": k.stat, "nsteps": len(k.steps)})
+			"p0": p0, "path": path, "opt": opt, "ld": ld, "stat": k.stat, "nsteps": len(k.steps)})
 		for i := range a {
 			out.Emit(hx.M{"op": "step", "i": i + 1, "a": a[i], "b": b[i]})
 		}
